@@ -463,3 +463,127 @@ def tr_relabel(node, meta=None, fmt=('{prefix}', '{j}'), model='default', mdl=No
         CALL_TIMEOUT = old
     t['out'] = {'ok': True, 'exc': '', 'tree': ab.tree_to_json(tree)} if ok else _exc_out(r)
     return t
+
+
+# ============================================================ role algebra (C13)
+def _rolefns(m, x):
+    return {'inv': bool(m.is_role_inverted(x)), 'invd': m.invert_role(x), 'invd2': m.invert_role(m.invert_role(x)),
+            'inv_of_invd': bool(m.is_role_inverted(m.invert_role(x))), 'has': bool(m.has_role(x))}
+
+
+def tr_roles(role, model='default', mdl=None):
+    m = get_model(model, mdl)
+    t = _mfields({'kind': 'roles', 'role': role, 'exc': ''}, model, mdl)
+
+    def run():
+        canon = m.canonicalize_role(role)
+        t['canon'] = canon
+        t['canon2'] = m.canonicalize_role(canon)
+        t['given'] = _rolefns(m, role)
+        t['can'] = _rolefns(m, canon)
+        t['tinv'] = list(m.invert(('s', canon, 't')))
+        t['tdeinv'] = list(m.deinvert(('s', canon, 't')))
+        t['tcanon'] = list(m.canonicalize(('s', role, 't')))
+    ok, r = guarded(run)
+    if not ok:
+        t['exc'] = 'Hang' if isinstance(r, Hang) else excname(r)
+        z = {'inv': False, 'invd': '', 'invd2': '', 'inv_of_invd': False, 'has': False}
+        t.update({'canon': '', 'canon2': '', 'given': z, 'can': z, 'tinv': [], 'tdeinv': [], 'tcanon': []})
+    return t
+
+
+def tr_canontree(node, meta=None, model='default', mdl=None):
+    node = to_node(node)
+    m = get_model(model, mdl)
+    t = _mfields({'kind': 'canontree', 'tree': ab.check_tree_roundtrip(node, meta), 'exc': ''}, model, mdl)
+    tree = Tree(node, metadata=dict(meta or {}))
+    ok, r = guarded(transform.canonicalize_roles, tree, m)
+    if not ok:
+        t['exc'] = 'Hang' if isinstance(r, Hang) else excname(r)
+        t['out'] = t['out2'] = t['tree']
+        return t
+    t['out'] = ab.tree_to_json(r)
+    ok, r2 = guarded(transform.canonicalize_roles, r, m)
+    t['out2'] = ab.tree_to_json(r2) if ok else {'top': 'EXC', 'br': [], 'meta': []}
+    t['unchanged'] = ab.tree_to_json(tree) == t['tree']
+    return t
+
+
+# ============================================================ Model.errors (C16)
+def tr_errors(tr, xtop=None, model='default', mdl=None, decoded_from=None):
+    """Either a triple list (+ explicit top) or, with decoded_from, a text to decode first."""
+    m = get_model(model, mdl)
+    if decoded_from is not None:
+        g = penman.PENMANCodec(model=m).decode(decoded_from)
+    else:
+        g = build_graph(tr, None, xtop)
+    t = _mfields({'kind': 'errors', 'g': {'top': ab.atom(g.top), 'xtop': ab.atom(g._top), 'tr': [ab.triple(x) for x in g.triples]},
+                  'decoded': decoded_from is not None, 'exc': '', 'errs': []}, model, mdl)
+    ok, r = guarded(m.errors, g)
+    if not ok:
+        t['exc'] = 'Hang' if isinstance(r, Hang) else excname(r)
+        return t
+    t['errs'] = [[[] if k is None else ab.triple(k), list(v)] for k, v in r.items()]
+    return t
+
+
+# ========================================================== Graph histories (C15)
+from penman.exceptions import GraphError  # noqa: E402
+
+_GFILTERS = [('a', None, None), (None, ':r', None), (None, None, 'b'), ('b', ':r', 'a'), (None, None, 'x')]
+
+
+def _gstate(g):
+    j = ab.graph_to_json(g)
+    st = {'tr': j['tr'], 'xtop': j['xtop'], 'epi': j['epi'], 'top': j['top'],
+          'vars': sorted(ab.atom(v) for v in g.variables()),
+          'inst': [ab.triple(x) for x in g.instances()],
+          'edges': [ab.triple(x) for x in g.edges()],
+          'attrs': [ab.triple(x) for x in g.attributes()],
+          'reent': [[ab.atom(k), v] for k, v in sorted(g.reentrancies().items(), key=lambda kv: str(kv[0]))],
+          'fe': [[ab.triple(x) for x in g.edges(*f)] for f in _GFILTERS],
+          'fa': [[ab.triple(x) for x in g.attributes(*f)] for f in _GFILTERS]}
+    return st
+
+
+def _u(x):
+    return None if x == ab.NULL else x
+
+
+def tr_ghist(acts):
+    """acts: [{op, i, j, top, tr, xtop}] with NULL sentinels as exported by TLC."""
+    pool = []
+    steps = []
+    for a in acts:
+        res = 'ok'
+        try:
+            signal.setitimer(signal.ITIMER_REAL, CALL_TIMEOUT)
+            op = a['op']
+            if op == 'new':
+                triples = [(_u(s), r, _u(t)) for s, r, t in a['tr']]
+                n = len(pool) + 1
+                epi = {t: [surface.Alignment.from_string(str(n))] for t in triples}
+                g = Graph(triples, epidata=epi)
+                g._top = _u(a['xtop'])
+                pool.append(g)
+            elif op == 'settop':
+                pool[a['i'] - 1].top = _u(a['top'])
+            elif op == 'or':
+                pool.append(pool[a['i'] - 1] | pool[a['j'] - 1])
+            elif op == 'ior':
+                pool[a['i'] - 1] |= pool[a['j'] - 1]
+            elif op == 'sub':
+                pool.append(pool[a['i'] - 1] - pool[a['j'] - 1])
+            elif op == 'isub':
+                pool[a['i'] - 1] -= pool[a['j'] - 1]
+        except GraphError:
+            res = 'GraphError'
+        except Hang:
+            res = 'Hang'
+        except Exception as e:  # noqa
+            res = 'EXC:' + excname(e)
+        finally:
+            signal.setitimer(signal.ITIMER_REAL, 0)
+        ok, st = guarded(lambda: [_gstate(g) for g in pool])
+        steps.append({'res': res if ok else 'EXC-in-query:' + excname(st), 'pool': st if ok else []})
+    return {'kind': 'ghist', 'acts': acts, 'steps': steps}
